@@ -8,6 +8,7 @@ mod dom;
 mod external;
 mod files;
 mod hteval;
+mod own;
 mod pure;
 mod preamble;
 mod prover;
